@@ -406,6 +406,64 @@ theorem reversed_same (i : Input) (h : WF i = true) :
 theorem non_unique_is_refused (i : Input) (h : WF i = false) : run i = refused := by
   simp [run, runWith, h]
 
+theorem all_viaFix (i : Input) (p : QObs → Bool) (hp : ∀ r, p (viaFix i r) = p r) (l : List QObs) :
+    (l.map (viaFix i)).all p = l.all p := by
+  induction l with
+  | nil => rfl
+  | cons a l ih => simp [hp, ih]
+
+theorem forall₂_viaFix (i : Input) (q : Text → QObs → Bool) (hq : ∀ t r, q t (viaFix i r) = q t r) :
+    ∀ (ts : List Text) (l : List QObs), forall₂ q ts (l.map (viaFix i)) = forall₂ q ts l
+  | [], [] => rfl
+  | [], _ :: _ => rfl
+  | _ :: _, [] => rfl
+  | t :: ts, r :: l => by simp [forall₂, hq, forall₂_viaFix i q hq ts l]
+
+theorem optAll_viaFix (i : Input) (p : QObs → Bool) (hp : ∀ r, p (viaFix i r) = p r) (o : Option QObs) :
+    ((o.map (viaFix i)).map p).getD true = (o.map p).getD true := by
+  cases o <;> simp [hp]
+
+/-- what the verifier entry points report for a query of a `WF` document (before the companion is taken into account) -/
+theorem pureT_via (i : Input) (h : WF i = true) (t : Text) :
+    (pureT i t).viaVerify = classOfExpected (expectedVia i t) ∧
+    (i.kind = .oci → (pureT i t).viaSkip = classOfExpected (expectedVia i t)) := by
+  have hWF := h
+  unfold WF wfDoc at hWF
+  unfold pureT expectedVia
+  cases hk : i.kind with
+  | oci =>
+    simp only [hk, Bool.and_eq_true] at hWF
+    simp only []
+    rw [(pureQ_selected _ _ _ _ _).2.2.2.1, (pureQ_selected _ _ _ _ _).2.2.2.2.1, classOf_eq,
+      nameOf_selectOCI i.stmts hWF.1 t]
+    exact ⟨rfl, fun _ => rfl⟩
+  | blob =>
+    simp only [hk, Bool.and_eq_true] at hWF
+    simp only []
+    rw [(pureQ_selected _ _ _ _ _).2.2.2.1, classOf_eq]
+    refine ⟨?_, fun hc => by cases hc⟩
+    by_cases ht : t = []
+    · simp only [blobVerifyQuery, ht, ↓reduceIte, selectQ, nameOf_selectGlobal i.stmts hWF.2]
+    · simp only [blobVerifyQuery, ht, ↓reduceIte, selectQ, nameOf_selectBlob i.stmts hWF.1 t]
+
+theorem regObs_fields (d : List Stmt) (hu : scopesUnique d = true) (t : Text) :
+    (regObs d t).regSkip = classOfExpected (expectedOCI d t) ∧
+    ((regObs d t).regVerify = notReached ∨ (regObs d t).regVerify = (regObs d t).regSkip) := by
+  unfold regObs
+  have h := nameOf_selectOCI d hu t
+  cases hs : selectOCI d t with
+  | error e =>
+    rw [hs] at h
+    simp only [nameOf] at h
+    exact ⟨by rw [← h]; rfl, Or.inl rfl⟩
+  | ok s =>
+    rw [hs] at h
+    simp only [nameOf] at h
+    refine ⟨by rw [← h]; rfl, ?_⟩
+    by_cases hl : s.level = "skip"
+    · exact Or.inl (by simp [hl])
+    · exact Or.inr (by simp [hl])
+
 /-- **C08, the whole property**, for ALL inputs. For a document satisfying the uniqueness rules
 (what `Validate` guarantees) every selection clause is true of the model's behaviour under the
 clone facts of the current source tree; a document that breaks one of them is refused by
@@ -418,7 +476,7 @@ theorem model_holds (i : Input) : Holds i (run i) = true := by
   | true =>
   simp only [↓reduceIte, Bool.true_or, List.cons_append, List.nil_append, selectionClauses]
   rw [runValid_fresh currentFacts currentFacts_fresh i]
-  simp only [Clauses.holds_cons, Clauses.holds_nil, Bool.and_true, Bool.and_eq_true, allQ]
+  simp only [withCompanion, Clauses.holds_cons, Clauses.holds_nil, Bool.and_true, Bool.and_eq_true, allQ]
   have hsel : ∀ t, (pureT i t).selected = expected i t := by
     intro t
     unfold pureT
@@ -436,16 +494,17 @@ theorem model_holds (i : Input) : Holds i (run i) = true := by
   have hrev := reversed_same i h
   have hWF := h
   unfold WF wfDoc at hWF
-  refine ⟨trivial, by simp, ?_, ?_, ?_, ?_, ?_, ?_, ?_, ?_⟩
+  refine ⟨trivial, by simp, by cases companionWF i <;> rfl, ?_, ?_, ?_, ?_, ?_, ?_, ?_, ?_, ?_, ?_⟩
   · -- selected = expected
-    rw [forall₂_map]
+    rw [forall₂_viaFix i _ (fun _ _ => rfl), forall₂_map]
     apply List.all_eq_true.2
     intro t _
     rw [hsel t]
     exact beq_self_eq_true _
   · -- order independence
     constructor
-    · apply List.all_eq_true.2
+    · rw [all_viaFix i _ (fun _ => rfl)]
+      apply List.all_eq_true.2
       intro r hr
       obtain ⟨t, _, rfl⟩ := List.mem_map.1 hr
       have h1 := hrev.1 t
@@ -461,13 +520,15 @@ theorem model_holds (i : Input) : Holds i (run i) = true := by
         rw [(pureQ_selected _ _ _ _ _).1, (pureQ_selected _ _ _ _ _).2.2.1]
         simp only [hk, mkQuery] at h1
         rw [h1]; exact beq_self_eq_true _
-    · cases hk : i.kind with
+    · rw [optAll_viaFix i _ (fun _ => rfl)]
+      cases hk : i.kind with
       | oci => rfl
       | blob =>
         simp only [Option.map_some, Option.getD_some]
         rw [(pureQ_selected _ _ _ _ _).1, (pureQ_selected _ _ _ _ _).2.2.1, hrev.2 hk]
         exact beq_self_eq_true _
   · -- refused reference selects nothing
+    rw [all_viaFix i _ (fun _ => rfl)]
     apply List.all_eq_true.2
     intro r hr
     obtain ⟨t, _, rfl⟩ := List.mem_map.1 hr
@@ -484,68 +545,87 @@ theorem model_holds (i : Input) : Holds i (run i) = true := by
       rw [(pureQ_selected _ _ _ _ _).2.1]
       rfl
   · -- verifier entry points
-    rw [forall₂_map]
+    rw [List.map_map, forall₂_map]
     apply List.all_eq_true.2
     intro t _
-    unfold pureT expectedVia
+    have hv := pureT_via i h t
+    simp only [Function.comp, viaFix, hv.1]
     cases hk : i.kind with
-    | oci =>
-      simp only [hk, Bool.and_eq_true] at hWF
-      simp only []
-      rw [(pureQ_selected _ _ _ _ _).2.2.2.1, (pureQ_selected _ _ _ _ _).2.2.2.2.1, classOf_eq,
-        nameOf_selectOCI i.stmts hWF.1 t]
-      simp
-    | blob =>
-      simp only [hk, Bool.and_eq_true] at hWF
-      simp only []
-      rw [(pureQ_selected _ _ _ _ _).2.2.2.1, classOf_eq]
-      by_cases ht : t = []
-      · simp only [blobVerifyQuery, ht, ↓reduceIte, selectQ, nameOf_selectGlobal i.stmts hWF.2]
-        simp
-      · simp only [blobVerifyQuery, ht, ↓reduceIte, selectQ, nameOf_selectBlob i.stmts hWF.1 t]
-        simp
+    | oci => simp [hv.2 hk]
+    | blob => simp
   · -- the global statement
     cases hk : i.kind with
     | oci => simp
     | blob =>
       simp only [hk, Bool.and_eq_true] at hWF
-      simp only []
+      simp only [Option.map_some, viaFix]
       rw [(pureQ_selected _ _ _ _ _).1, (pureQ_selected _ _ _ _ _).2.2.2.1, classOf_eq]
       simp only [selectQ, nameOf_selectGlobal i.stmts hWF.2]
       simp
   · -- copies equal the original
     constructor
-    · apply List.all_eq_true.2
+    · rw [all_viaFix i _ (fun _ => rfl)]
+      apply List.all_eq_true.2
       intro r hr
       obtain ⟨t, _, rfl⟩ := List.mem_map.1 hr
       unfold pureT
       cases i.kind <;> exact (pureQ_selected _ _ _ _ _).2.2.2.2.2.1
-    · cases i.kind
+    · rw [optAll_viaFix i _ (fun _ => rfl)]
+      cases i.kind
       · rfl
       · simp only [Option.map_some, Option.getD_some]
         exact (pureQ_selected _ _ _ _ _).2.2.2.2.2.1
   · -- mutation does not affect later selections
     constructor
-    · apply List.all_eq_true.2
+    · rw [all_viaFix i _ (fun _ => rfl)]
+      apply List.all_eq_true.2
       intro r hr
       obtain ⟨t, _, rfl⟩ := List.mem_map.1 hr
       unfold pureT
       cases i.kind <;> exact (pureQ_selected _ _ _ _ _).2.2.2.2.2.2.1
-    · cases i.kind
+    · rw [optAll_viaFix i _ (fun _ => rfl)]
+      cases i.kind
       · rfl
       · simp only [Option.map_some, Option.getD_some]
         exact (pureQ_selected _ _ _ _ _).2.2.2.2.2.2.1
   · -- copies are independent of each other
     constructor
-    · apply List.all_eq_true.2
+    · rw [all_viaFix i _ (fun _ => rfl)]
+      apply List.all_eq_true.2
       intro r hr
       obtain ⟨t, _, rfl⟩ := List.mem_map.1 hr
       unfold pureT
       cases i.kind <;> exact (pureQ_selected _ _ _ _ _).2.2.2.2.2.2.2
-    · cases i.kind
+    · rw [optAll_viaFix i _ (fun _ => rfl)]
+      cases i.kind
       · rfl
       · simp only [Option.map_some, Option.getD_some]
         exact (pureQ_selected _ _ _ _ _).2.2.2.2.2.2.2
+  · -- registry entry point: the skip check
+    cases hk : i.kind with
+    | blob => simp
+    | oci =>
+      simp only [hk, Bool.and_eq_true] at hWF
+      simp only [bne_self_eq_false, Bool.false_or]
+      rw [List.map_map, forall₂_map]
+      apply List.all_eq_true.2
+      intro t _
+      simp only [Function.comp, viaFixR, (regObs_fields i.stmts hWF.1 t).1]
+      exact beq_self_eq_true _
+  · -- registry entry point: same statement for the signatures
+    rw [List.map_map]
+    apply List.all_eq_true.2
+    intro r hr
+    obtain ⟨t, _, rfl⟩ := List.mem_map.1 hr
+    simp only [Function.comp, viaFixR, viaExp]
+    cases hc : companionWF i with
+    | false => simp
+    | true =>
+      simp only [↓reduceIte]
+      unfold regObs
+      cases selectOCI i.stmts t with
+      | error e => simp
+      | ok s => by_cases hl : s.level = "skip" <;> simp [hl]
 
 /-! ### selection is a function of the document's current content -/
 
@@ -564,19 +644,23 @@ edited in place or copied, re-validated or not): the model's whole observation -
 verdict, every selection, every verifier outcome - is determined by the kind, the CURRENT
 statements and the queries. There is no state besides the document's content. -/
 theorem selection_depends_only_on_current_content (i j : Input)
-    (hk : i.kind = j.kind) (hs : i.stmts = j.stmts) (hq : i.queries = j.queries) : run i = run j := by
+    (hk : i.kind = j.kind) (hs : i.stmts = j.stmts) (hq : i.queries = j.queries)
+    (hc : i.companion = j.companion) (hr : i.registryQueries = j.registryQueries) : run i = run j := by
   have hWF : WF i = WF j := by simp only [WF, hk, hs]
+  have hcw : companionWF i = companionWF j := by simp only [companionWF, hk, hc]
   unfold run runWith
   rw [hWF]
   cases WF j with
   | false => rfl
   | true =>
-    simp only [↓reduceIte, runValid, runQueries_congr currentFacts i j hk hs, hq, hk, hs]
+    have hfix : viaFix i = viaFix j := by funext r; simp only [viaFix, viaExp, hcw, hk]
+    have hfixR : viaFixR i = viaFixR j := by funext r; simp only [viaFixR, viaExp, hcw]
+    simp only [↓reduceIte, runValid, runQueries_congr currentFacts i j hk hs, hq, hk, hs, hr, withCompanion, hfix, hfixR, hcw]
 
 /-- in particular: an edited document behaves exactly like a freshly built one with the same content -/
 theorem edited_equals_fresh (i : Input) :
     run i = run { i with history := "unvalidated", before := none } :=
-  selection_depends_only_on_current_content i _ rfl rfl rfl
+  selection_depends_only_on_current_content i _ rfl rfl rfl rfl rfl
 
 /-! ### non-vacuity -/
 
@@ -589,7 +673,7 @@ def exStmt (n : String) (scopes : List String) : Stmt :=
 def exDoc : List Stmt := [exStmt "w" ["*"], exStmt "a" ["r.io/app", "r.io/app2"], exStmt "b" ["r.io/app/sub"]]
 
 def exInput : Input :=
-  { kind := .oci, stmts := exDoc, history := "validated", before := none,
+  { kind := .oci, stmts := exDoc, history := "validated", before := none, companion := none, registryQueries := [],
     queries := ["r.io/app@d".toList, "r.io/app/sub@d".toList, "r.io/ap@d".toList, "r.io/app:v1@d".toList, "r.io/app".toList] }
 
 example : WF exInput = true := by decide
@@ -608,14 +692,14 @@ example : Holds { exInput with queries := ["r.io/ap@d".toList] }
     { validated := true, verifierAccepts := true,
       queries := [{ selected := some "a".toList, reversedSelected := some "a".toList, refRejected := false,
                     viaVerify := "stmt:a".toList, viaSkip := "stmt:a".toList, copyEqual := true, intact := true, independent := true }],
-      globalSel := none } = false := by decide
+      globalSel := none, registry := [] } = false := by decide
 
 /-- a document with two wildcard statements breaks the uniqueness rules: the model refuses it,
 and an implementation that validates it and then selects in an order-dependent way is rejected
 (by the validation clause and by every selection clause) -/
 def exTwoWild : Input :=
   { kind := .oci, stmts := [exStmt "w1" ["*"], exStmt "a" ["r.io/app"], exStmt "w2" ["*"]],
-    history := "validated", before := none,
+    history := "validated", before := none, companion := none, registryQueries := [],
     queries := ["r.io/other@d".toList] }
 
 example : WF exTwoWild = false := by decide
@@ -625,7 +709,7 @@ example : Holds exTwoWild
     { validated := true, verifierAccepts := true,
       queries := [{ selected := some "w2".toList, reversedSelected := some "w1".toList, refRejected := false,
                     viaVerify := "stmt:w2".toList, viaSkip := "stmt:w2".toList, copyEqual := true, intact := true, independent := true }],
-      globalSel := none } = false := by decide
+      globalSel := none, registry := [] } = false := by decide
 
 /-- the same scope in two statements, the same scope twice in one statement, a duplicate name,
 a wildcard next to another scope, two global blob statements: all outside `WF` -/
@@ -668,7 +752,7 @@ example : (run exInput).queries.map (·.independent) = [true, true, true, true, 
 
 /-- blob: exact name, near misses, blank name; VerifyBlob without a name applies the global statement -/
 def exBlob : Input :=
-  { kind := .blob, history := "validated", before := none,
+  { kind := .blob, history := "validated", before := none, companion := none, registryQueries := [],
     stmts := [{ exStmt "blob-policy" [] with isGlobal := true }, exStmt "blob-policy2" []],
     queries := ["blob-policy2".toList, "blob-polic".toList, "Blob-policy".toList, " ".toList, [] ] }
 
